@@ -12,10 +12,10 @@ RULE = ("exhaustive: every sequence over {-2..2} up to length 6 (quick) / 8 (tho
         "Index outputs compared exactly. distinct = hash of the series; non-trivial = length >= 3 and not constant")
 TIE = "correspondence (hand model Model/Switched.lean on top of Model/Peaks.lean; exhaustive over small alphabets)"
 NOT_PROVED = ["sign of products v[i-1]*v[i] that underflow in binary64 (not generated)",
-              "C12.f: 'switched peaks with tol>0 are a subsequence of the tol=0 result' is false of code and model (known finding F12-2); "
+              "C12.f unconditional 'tol>0 result is a subsequence of the tol=0 result' is false (F12-2); proved: sublist of the peak list, and the subsequence claim under three checkable conditions (boundaries of the tol run included in those of the 0 run; first peak of every excursion reaches tol if any does; every later peak reaches tol => equality) - sufficient, not necessary (Props/C12TolSublist)",
               "proved instead: sublist of the peak list"]
 EXHAUSTIVE = True
-PROP_MODULES = ['C12', 'C12Discharged', 'C12Gen']
+PROP_MODULES = ['C12', 'C12Discharged', 'C12Gen', 'C12ZeroPeak', 'C12TolSublist']
 
 
 def spec_zc(v, keep):
@@ -509,3 +509,16 @@ def run(ctx):
 
 # evidence: how the model is tied to the source on every run (as built, supersedes the value above)
 TIE = 'translator (zero crossings incl. the tol loop, switched-peak grouping loop -> Gen/CrossingsFns; Props/C12Gen) + correspondence (exhaustive, exact)'
+
+
+# ---- round-7 deliveries (lw_small / tw_single3): further correspondences of models with new theorems -------------------------
+import _lw_small as _LW  # noqa: E402
+from _single3_corr import corr_single3  # noqa: E402
+_run_main_r7 = run
+
+
+def run(ctx):
+    _run_main_r7(ctx)
+    _LW.corr_switched_tol(ctx)
+    corr_single3(ctx, parts=('peaks',))
+    ctx.flush()
